@@ -98,7 +98,7 @@ Definition load_bs (dir : option nat) (n deg lastsz : nat) (d : disk fkey bcont)
           match c with
           | FBad PValue => LNone                       (* except ValueError *)
           | FBad e => LRaise (load_exc e)
-          | FShape => LSome (junk (Nat.div2 n) deg)
+          | FShape => let j := junk (Nat.div2 (fst k)) deg in LSome (if n <? lastsz then crop n j else j)
           | FGood b => LSome (if n <? lastsz then crop n b else b)
           end
       end
